@@ -195,7 +195,7 @@ func unwrapJSONP(body, j string) (string, bool) {
 			continue
 		}
 		i++
-		if in[i] == 'u' && i+4 < len(in)+0 && i+4 <= len(in)-1+0 {
+		if in[i] == 'u' && i+4 < len(in) {
 			if n, err := strconv.ParseUint(in[i+1:i+5], 16, 32); err == nil {
 				b.WriteRune(rune(n))
 				i += 4
@@ -867,9 +867,8 @@ func runSharded(part, tier string, procs int, deadline time.Time) (*shardOut, []
 			cmd.Stderr = &stderr
 			b, err := cmd.Output()
 			so := &shardOut{}
-			if i := strings.LastIndex(string(b), "RESULT "); i >= 0 && json.Unmarshal(b[i+7:], so) == nil {
-				outs[i0(i, &i)] = so
-				_ = err
+			if pos := strings.LastIndex(string(b), "RESULT "); pos >= 0 && json.Unmarshal(b[pos+7:], so) == nil {
+				outs[i] = so
 				return
 			}
 			tail := stderr.String()
@@ -910,8 +909,6 @@ func runSharded(part, tier string, procs int, deadline time.Time) (*shardOut, []
 	}
 	return total, herrs
 }
-
-func i0(_ int, p *int) int { return *p }
 
 func shardMain(args []string) {
 	if len(args) != 5 {
@@ -1040,8 +1037,8 @@ func closeRace(name string, handshakes int, withLive, withPoll bool, bound int) 
 
 // ---------------------------------------------------------------- part 3b: two concurrent handshakes, forced equal ids
 
-func collideScenario() *vx.Scenario {
-	sc := &vx.Scenario{Name: "ids/2-concurrent-handshakes-forced-equal-ids", PreemptOnly: true, Unbounded: true, Horizon: time.Second}
+func collideScenario(bound int) *vx.Scenario {
+	sc := &vx.Scenario{Name: "ids/2-concurrent-handshakes-forced-equal-ids", PreemptOnly: true, Bound: bound, Horizon: time.Second}
 	sc.Body = func(e *vsched.Exec) func() vx.Result {
 		w := newWorld()
 		n := 0
@@ -1144,14 +1141,21 @@ func generatedIDs(n int, random bool) (distinct int, err error) {
 // ---------------------------------------------------------------- main
 
 func scenarios(tier string) []*vx.Scenario {
-	s := []*vx.Scenario{
-		closeRace("close/handshake-vs-close", 1, false, false, -1),
-		closeRace("close/handshake-vs-close-with-live-session", 1, true, false, -1),
-		closeRace("close/handshake-vs-close-vs-poll", 1, true, true, -1),
-		collideScenario(),
-	}
+	b := 2
 	if tier == "thorough" {
-		s = append(s, closeRace("close/2-handshakes-vs-close", 2, false, false, 3))
+		b = 3
+	}
+	if v, err := strconv.Atoi(os.Getenv("C17_BOUND")); err == nil {
+		b = v
+	}
+	s := []*vx.Scenario{
+		// bounded first: its counterexample has the fewest preemptions and is the one reported
+		closeRace("close/handshake-vs-close/bounded", 1, false, false, b),
+		closeRace("close/handshake-vs-close/all-interleavings", 1, false, false, -1),
+		closeRace("close/handshake-vs-close-with-live-session", 1, true, false, b),
+		closeRace("close/handshake-vs-close-vs-poll", 1, true, true, b),
+		closeRace("close/2-handshakes-vs-close", 2, false, false, b),
+		collideScenario(b),
 	}
 	return s
 }
@@ -1210,7 +1214,11 @@ func extra(tier string, r *vx.Report) {
 	r.Sample(map[string]any{"part": "ids", "answers": "SSD", "meaning": "2nd handshake generates the live id twice, then a fresh one: must be answered OPEN with a new sid"})
 
 	// observations of the concurrent forced collision (not verdicts; the verdict part runs as a scenario)
-	st := vx.Explore(collideScenario(), 0, time.Now().Add(30*time.Second))
+	cb := 2
+	if tier == "thorough" {
+		cb = 3
+	}
+	st := vx.Explore(collideScenario(cb), 0, time.Now().Add(30*time.Second))
 	vsched.EnvRandScript = nil
 	r.Extra["ids/concurrent-forced-collision observations (outcome -> executions; not verdicts)"] = st.Outcomes
 
